@@ -1616,6 +1616,7 @@ class ConcurrencyFam(Family):
         self.CLS = type(self.cm).__name__
         self.limit = lim
         self.used = 0
+        self.usedw = 0
         return []
 
     def process(self, w):
@@ -1626,31 +1627,40 @@ class ConcurrencyFam(Family):
             if k == "hold":
                 yield from self.hold(w, op["ns"])
             elif k == "acq":
-                wt = int(op.get("a", 1)) if self.kind == "weighted" else 1
+                # every request carries a weight; Fixed/Dynamic document that they ignore it (one slot per request),
+                # Weighted consumes it.  Both accountings are accepted for Fixed/Dynamic as long as they are consistent:
+                # `used` counts slots by the documented unit, `usedw` by weight.
+                wt = int(op.get("a", 1))
                 if wt < 1:
                     raise InvalidScenario("weight")
+                unit = wt if self.kind == "weighted" else 1
+                if wt > 1:
+                    self.probe("weighted_request")
                 w.cur = "acquire"
                 self.counters["op.acquire"] += 1
-                room = self.used + wt <= self.limit
+                room1 = self.used + unit <= self.limit
+                roomw = self.usedw + wt <= self.limit
                 hc = cm.has_capacity(wt)
                 ok = cm.acquire(wt)
-                if ok and not room:
-                    bad("over-admit", self.CLS, "acquire", f"acquire({wt}) succeeded with {self.used} of {self.limit} in use")
-                if not ok and room:
-                    bad("head-waiter-served", self.CLS, "refused-with-capacity", f"acquire({wt}) refused with {self.used} of {self.limit} in use")
-                if hc != room:
-                    bad("conservation", self.CLS, "has-capacity", f"has_capacity({wt})={hc} with {self.used} of {self.limit} in use")
+                if ok and not (room1 or roomw):
+                    bad("over-admit", self.CLS, "acquire", f"acquire({wt}) succeeded with {self.used} slots / weight {self.usedw} of {self.limit} in use")
+                if not ok and room1 and roomw:
+                    bad("head-waiter-served", self.CLS, "refused-with-capacity", f"acquire({wt}) refused with {self.used} slots / weight {self.usedw} of {self.limit} in use")
+                if hc != ok:
+                    bad("conservation", self.CLS, "has-capacity", f"has_capacity({wt})={hc} but acquire({wt})={ok} with {self.used} of {self.limit} in use")
                 if ok:
-                    self.used += wt
-                    mine.append(wt)
+                    self.used += unit
+                    self.usedw += wt
+                    mine.append((unit, wt))
                     self.note(w.idx, "grant", wt)
                 else:
                     self.probe("try_refused")
             elif k == "rel" and mine:
-                wt = mine.pop(0)
+                unit, wt = mine.pop(0)
                 w.cur = "release"
                 self.counters["op.release"] += 1
-                self.used -= wt
+                self.used -= unit
+                self.usedw -= wt
                 self.note(w.idx, "release", wt)
                 cm.release(wt)
             elif k == "rel2" and not mine and self.used == 0:
@@ -1678,8 +1688,9 @@ class ConcurrencyFam(Family):
                     self.probe("limit_below_active")
             self._check()
         while mine:
-            wt = mine.pop(0)
-            self.used -= wt
+            unit, wt = mine.pop(0)
+            self.used -= unit
+            self.usedw -= wt
             cm.release(wt)
             self._check()
 
@@ -1687,9 +1698,11 @@ class ConcurrencyFam(Family):
         cm = self.cm
         if cm.limit != self.limit:
             bad("conservation", self.CLS, "limit", f"limit={cm.limit}, expected {self.limit}")
-        if cm.active != self.used:
-            bad("conservation", self.CLS, "active" + ("-high" if cm.active > self.used else "-low"), f"active={cm.active}, holder log says {self.used}")
-        if self.used <= self.limit:
+        if cm.active not in (self.used, self.usedw):
+            bad("conservation", self.CLS, "active" + ("-high" if cm.active > max(self.used, self.usedw) else "-low"),
+                f"active={cm.active}, holder log says {self.used} requests of total weight {self.usedw}"
+                + (" (nothing outstanding: everything must be free)" if self.usedw == 0 else ""))
+        if cm.active <= self.limit:
             if cm.active + cm.available != cm.limit:
                 bad("conservation", self.CLS, "held-plus-available", f"active={cm.active} available={cm.available} limit={cm.limit}")
         elif cm.available != 0:
@@ -1959,10 +1972,18 @@ class _Done(Entity):
 
 
 class ServerFam(Family):
+    """A real Server (Queue + QueueDriver) with a Fixed / Dynamic / Weighted concurrency model in front of a sink.
+
+    Every request carries metadata["weight"] (1 for most).  Fixed/Dynamic document that they ignore the weight (one slot
+    per request), Weighted consumes it; for Fixed/Dynamic both accountings are accepted as long as they are consistent
+    (active equals either the number or the total weight of the requests in service) - so "nothing in service => active
+    == 0 and everything free" always holds.
+    """
+
     CLS = "Server"
 
     def build(self):
-        from happysimulator.components.server.concurrency import DynamicConcurrency, FixedConcurrency
+        from happysimulator.components.server.concurrency import DynamicConcurrency, FixedConcurrency, WeightedConcurrency
         from happysimulator.components.server.server import Server
 
         c = self.cfg
@@ -1976,27 +1997,45 @@ class ServerFam(Family):
             if self.lo < 1 or lim < self.lo or (self.hi is not None and (self.hi < self.lo or lim > self.hi)):
                 raise InvalidScenario("dynamic bounds")
             self.cm = DynamicConcurrency(lim, min_limit=self.lo, max_limit=self.hi)
+            conc = self.cm
         elif self.kind == "fixed":
             self.cm = FixedConcurrency(lim)
+            conc = self.cm
+        elif self.kind == "int":
+            conc = lim              # Server wraps the int in a FixedConcurrency itself
+            self.cm = None
+        elif self.kind == "weighted":
+            self.cm = WeightedConcurrency(lim)
+            conc = self.cm
         else:
             raise InvalidScenario("kind")
-        self.CLS = type(self.cm).__name__
         self.limit = lim
         self.qcap = c.get("queue")
         if self.qcap is not None and self.qcap < 1:
             raise InvalidScenario("queue")
-        self.started = 0
+        self.fifo: list[int] = []        # accepted by the queue, not yet started / discarded (arrival order)
+        self.running: dict[int, int] = {}  # rid -> weight
+        self.weights: dict[int, int] = {}
+        self.n_started = 0
+        self.discarded: list[int] = []
         self.done_ids: list[int] = []
         self.raised_at = -1        # instant of the last limit raise
         self._inst = -1            # instant of the last delivery
+        self.prev = (0, 0, 0)      # accepted, dropped, rejected
         self.sink = _Done("done", self)
-        self.srv = Server("srv", concurrency=self.cm, service_time=_seq_latency(svc, self._on_start),
+        self.srv = Server("srv", concurrency=conc, service_time=_seq_latency(svc, self._on_start),
                           queue_capacity=self.qcap, downstream=self.sink)
+        self.cm = self.srv.concurrency_model
+        self.CLS = type(self.cm).__name__
         return [self.srv, self.sink]
 
     def _on_start(self):
-        self.started += 1
-        self.note(self.started, "grant")
+        if not self.fifo:
+            bad("granted-once", self.CLS, "start-without-queued-request", "a request started although none is waiting")
+        rid = self.fifo.pop(0)
+        self.running[rid] = self.weights[rid]
+        self.n_started += 1
+        self.note(rid, "grant", self.weights[rid])
         cm = self.cm
         if cm.active > cm.limit:
             bad("over-admit", self.CLS, "started-above-limit", f"a request started with active={cm.active} > limit={cm.limit}")
@@ -2005,16 +2044,21 @@ class ServerFam(Family):
         rid = event.context.get("metadata", {}).get("rid")
         if rid in self.done_ids:
             bad("granted-once", self.CLS, "request-completed-twice", f"request {rid} completed twice")
+        if rid not in self.running:
+            bad("granted-once", self.CLS, "completed-without-start", f"request {rid} completed but never started")
+        del self.running[rid]
         self.done_ids.append(rid)
         self.note(rid, "release")
 
     def extra_events(self):
         evs = []
         for i, rq in enumerate(self.sc["requests"]):
-            if rq["t"] < 0:
+            wt = int(rq.get("w", 1))
+            if rq["t"] < 0 or wt < 1:
                 raise InvalidScenario("request")
+            self.weights[i] = wt
             evs.append(Event(time=Instant(int(rq["t"])), event_type="req", target=self.srv,
-                             context={"metadata": {"rid": i}}))
+                             context={"metadata": {"rid": i, "weight": wt}}))
         self.n_req = len(evs)
         return evs
 
@@ -2056,13 +2100,43 @@ class ServerFam(Family):
     def after(self, ev, mon):
         cm, srv = self.cm, self.srv
         self._inst = ev.time.nanoseconds
+        cur = (srv.stats_accepted, srv.stats_dropped, srv.stats.requests_rejected)
+        if ev.target is srv and ev.event_type == "req" and "rid" in ev.context.get("metadata", {}) and not self._is_forward(ev):
+            rid = ev.context["metadata"]["rid"]
+            da, dd = cur[0] - self.prev[0], cur[1] - self.prev[1]
+            if (da, dd) == (1, 0):
+                self.fifo.append(rid)
+            elif (da, dd) == (0, 1):
+                self.probe("rejected")
+            else:
+                bad("conservation", self.CLS, "arrival-accounting", f"arrival {rid}: accepted/dropped deltas {(da, dd)}")
+        discarded_msg = None
+        for _ in range(cur[2] - self.prev[2]):
+            # the worker could not take the request it was handed: the request is discarded (counted as rejected)
+            if not self.fifo:
+                bad("conservation", self.CLS, "rejected-without-request", "requests_rejected grew although nothing was waiting")
+            rid = self.fifo.pop(0)
+            self.discarded.append(rid)
+            self.probe("request_discarded_by_worker")
+            if self.weights[rid] <= self.limit and discarded_msg is None:
+                discarded_msg = (f"request {rid} (weight {self.weights[rid]}, limit {self.limit}) waited in the queue, reached the head "
+                                 f"while active={cm.active} and was discarded instead of waiting for capacity")
+        self.prev = cur
         if cm.limit != self.limit:
             bad("conservation", self.CLS, "limit", f"limit={cm.limit}, expected {self.limit}")
-        running = self.started - srv.stats.requests_completed
-        if cm.active != running:
-            bad("conservation", self.CLS, "active" + ("-high" if cm.active > running else "-low"),
-                f"active={cm.active} but {running} requests are in service")
-        if running <= self.limit:
+        n, wsum = len(self.running), sum(self.running.values())
+        # between the worker's release and the sink's delivery a finished request is still in `running`
+        fin = self.n_started - srv.stats.requests_completed
+        pend = [self.running[r] for r in list(self.running)[: max(0, n - fin)]] if fin < n else None
+        ok_vals = {n, wsum} if self.kind != "weighted" else {wsum}
+        if fin < n:
+            # some request finished in this instant and its completion event has not reached the sink yet
+            ok_vals = None
+        if ok_vals is not None and cm.active not in ok_vals:
+            bad("conservation", self.CLS, "active" + ("-high" if cm.active > max(ok_vals) else "-low"),
+                f"active={cm.active} but {n} requests of total weight {wsum} are in service"
+                + (" (nothing in service: everything must be free)" if n == 0 else ""))
+        if cm.active <= cm.limit:
             if cm.active + cm.available != cm.limit:
                 bad("conservation", self.CLS, "held-plus-available", f"active={cm.active} available={cm.available} limit={cm.limit}")
         elif cm.available != 0:
@@ -2072,33 +2146,48 @@ class ServerFam(Family):
         if srv.depth:
             self.max_blocked = max(self.max_blocked, srv.depth)
             self.counters["blocked"] = 1
-        self.states.add(f"srv:{self.kind}:{min(cm.active, 3)}:{min(srv.depth, 3)}:{'over' if running > self.limit else 'full' if running == self.limit else 'room'}")
+        if wsum > n:
+            self.probe("weighted_request_in_service")
+        del pend
+        if discarded_msg is not None:
+            # judged last: the counters above must be right even in the delivery that discards a request (recorded defect)
+            bad("served-eventually", self.CLS, "queued-request-discarded-at-head", discarded_msg)
+        self.states.add(f"srv:{self.kind}:{min(cm.active, 3)}:{min(srv.depth, 3)}:{'over' if cm.active > self.limit else 'full' if cm.active == self.limit else 'room'}")
+
+    def _is_forward(self, ev):
+        return False
 
     def eoi(self):
         srv, cm = self.srv, self.cm
         if srv.depth > 0:
             self.probe("waited_across_time")
-            if cm.has_capacity():
+            head_w = self.weights[self.fifo[0]] if self.fifo else 1
+            if cm.has_capacity(head_w) and cm.has_capacity(1):
                 detail = "queued-while-slot-free"
                 if self.raised_at >= 0 and self.raised_at == self._inst:
                     detail = "queued-after-limit-raised"
                 bad("head-waiter-served", self.CLS, detail,
-                    f"end of instant: {srv.depth} requests queued while active={cm.active} < limit={cm.limit}")
+                    f"end of instant: {srv.depth} requests queued (head weight {head_w}) while active={cm.active} < limit={cm.limit}")
+        n, wsum = len(self.running), sum(self.running.values())
+        ok_vals = {n, wsum} if self.kind != "weighted" else {wsum}
+        if cm.active not in ok_vals:
+            bad("conservation", self.CLS, "active" + ("-high" if cm.active > max(ok_vals) else "-low"),
+                f"end of instant: active={cm.active} but {n} requests of total weight {wsum} are in service"
+                + (" (nothing in service: everything must be free)" if n == 0 else ""))
 
     def final(self):
         srv, cm = self.srv, self.cm
         self.eoi()
-        if srv.depth or cm.active:
-            bad("served-eventually", self.CLS, "left-at-quiescence", f"queued={srv.depth} active={cm.active} limit={cm.limit}")
+        if srv.depth or cm.active or self.running:
+            bad("served-eventually", self.CLS, "left-at-quiescence", f"queued={srv.depth} active={cm.active} in service={len(self.running)} limit={cm.limit}")
+        if cm.available != cm.limit:
+            bad("conservation", self.CLS, "leak-at-quiescence", f"nothing outstanding but available={cm.available} of {cm.limit}")
         st = srv.stats
-        dropped = srv.stats_dropped
-        if dropped:
-            self.probe("rejected")
-        if st.requests_completed + st.requests_rejected + dropped != self.n_req:
+        if st.requests_completed + st.requests_rejected + srv.stats_dropped != self.n_req:
             bad("conservation", self.CLS, "request-accounting",
-                f"sent={self.n_req} completed={st.requests_completed} rejected={st.requests_rejected} dropped={dropped}")
-        if len(self.done_ids) != st.requests_completed or self.started != st.requests_completed + st.requests_rejected * 0:
-            bad("conservation", self.CLS, "started-vs-completed", f"started={self.started} completed={st.requests_completed} delivered={len(self.done_ids)}")
+                f"sent={self.n_req} completed={st.requests_completed} rejected={st.requests_rejected} dropped={srv.stats_dropped}")
+        if len(self.done_ids) != st.requests_completed or self.n_started != st.requests_completed:
+            bad("conservation", self.CLS, "started-vs-completed", f"started={self.n_started} completed={st.requests_completed} delivered={len(self.done_ids)}")
 
 
 FAMILIES["server"] = ServerFam
